@@ -16,15 +16,17 @@ RULE = ("Randomised scenarios against the real `garden nrepl` TCP server (fresh 
         "calls) is interrupted 0..60 ms after its marker has been received, with 0..2 further evals already queued "
         "behind it; (b) interrupt an idle session (all its requests done) and then eval; (c) close a session whose "
         "eval is running; (d) interrupt one session while another session's eval runs. Oracle: the interrupted eval "
-        "ends within 10 s with status `interrupted` (and `done`); every eval queued behind it, and every eval sent "
+        "ends within 30 s with status `interrupted` (and `done`); every eval queued behind it, and every eval sent "
         "after an idle interrupt, runs to its normal value and is not reported interrupted; the other session's eval "
-        "is unaffected; after `close` the running eval ends within 10 s; every request gets its `done`. "
+        "is unaffected; after `close` the running eval ends within 30 s; every request gets its `done`. "
         "Non-trivial = the scenario interrupts a running eval with at least one eval queued behind it, or uses a "
         "server delay point; distinct = distinct scenario.")
 ASSUMPTIONS = ["an eval counts as executing once the client has received its start marker, so an interrupt sent "
                "after that must be honoured; an interrupt sent while the eval is still queued is not required to",
                "interleavings are perturbed, not enumerated (see C30)",
-               "'promptly' is taken as 10 s, far above any injected delay"]
+               "'promptly' is taken as 30 s, far above any injected delay; a missed deadline is a violation only if the same "
+               "scenario misses it in two repetitions as well (otherwise inconclusive): deadlines measure the machine's "
+               "load as much as the server"]
 MANIFEST = dict(
     category="exploration",
     technique="randomised-schedule scenario testing of the real TCP server with injected delays at named points "
@@ -38,7 +40,7 @@ MANIFEST = dict(
 LOOPS = [
     'println("{tag}-started")\nwhile True {{ 1 }}',
     'println("{tag}-started")\nlet n = 0\nwhile True {{ n += 1 }}',
-    'println("{tag}-started")\nwhile True {{ println("{tag}-tick") }}',
+    'println("{tag}-started")\nlet n = 0\nwhile True {{ n += 1\n if (n % 50000) == 0 {{ println("{tag}-tick") }} }}',
     'fun spin_{fn}(k: Int): Int {{ if k < 0 {{ 0 }} else {{ spin_{fn}(k) }} }}\nfun outer_{fn}(): Int {{ while True {{ [1, 2].map(fun(x: Int): Int {{ x + 1 }}) }} 1 }}\nprintln("{tag}-started")\nouter_{fn}()',
     'println("{tag}-started")\nfor i in range(0, 100000000) {{ i + 1 }}',
 ]
@@ -61,7 +63,7 @@ def gen(r):
     return {"nsess": nsess, "phases": phases, "delays": delays, "nontrivial": hard or bool(delays)}
 
 
-def check(case, ctx) -> Res:
+def run_scenario(case, ctx) -> Res:
     d = ctx.scratch.dir()
     srv = N.Server(d, case["delays"])
     cls = tuple(sorted({"phase:" + p["k"] for p in case["phases"]})) + tuple("delay:" + k for k in sorted(case["delays"]))
@@ -77,9 +79,9 @@ def check(case, ctx) -> Res:
         for i in range(case["nsess"] + 1):         # one spare session for cross-session phases
             cid = f"clone{i}"
             c.send({"op": "clone", "id": cid})
-            if not c.wait_for(lambda ms: any(m.get("id") == cid and "new-session" in m for m in ms), 30):
-                return Res(ok=True, inconclusive=True, detail="clone not answered in 30 s")
-            sessions.append([m["new-session"] for _, m in c.snapshot() if m.get("id") == cid and "new-session" in m][0])
+            if not c.wait_msg(cid, lambda m: "new-session" in m, 60):
+                return Res(ok=True, inconclusive=True, detail="clone not answered in 60 s")
+            sessions.append([m["new-session"] for m in c.msgs_of(cid) if "new-session" in m][0])
         n = [0]
 
         def rid(p):
@@ -87,7 +89,7 @@ def check(case, ctx) -> Res:
             return f"{p}{n[0]}"
 
         def msgs_of(i):
-            return [m for _, m in c.snapshot() if m.get("id") == i]
+            return c.msgs_of(i)
 
         def status_of(i):
             for m in msgs_of(i):
@@ -96,13 +98,13 @@ def check(case, ctx) -> Res:
             return None
 
         def wait_done(i, t):
-            return c.wait_for(lambda ms: i in N.done_ids(ms), t)
+            return c.wait_done([i], t)
 
         def start_loop(sess, loop):
             i = rid("loop")
             code = LOOPS[loop].format(tag=i, fn=n[0])
             c.send({"op": "eval", "id": i, "session": sess, "code": code})
-            ok = c.wait_for(lambda ms: any(m.get("id") == i and f"{i}-started" in m.get("out", "") for m in ms), 30)
+            ok = c.wait_msg(i, lambda m: f"{i}-started" in m.get("out", ""), 60)
             return i, ok
 
         def plain_eval(sess, tag):
@@ -132,14 +134,14 @@ def check(case, ctx) -> Res:
                     time.sleep(ph["wait_ms"] / 1000.0)
                 ii = rid("int")
                 c.send({"op": "interrupt", "id": ii, "session": sess})
-                if not wait_done(li, 10):
-                    return fail("interrupt does not stop the running eval within 10 s",
+                if not wait_done(li, 30):
+                    return fail("interrupt does not stop the running eval within 30 s",
                                 f"eval {li} (loop {ph['loop']}) still running; interrupt answer: {msgs_of(ii)}\n--- scenario\n{hist}",
                                 classes=cls)
                 if "interrupted" not in status_of(li):
                     return fail("interrupted eval does not report status `interrupted`",
                                 f"eval {li}: status {status_of(li)}\n--- scenario\n{hist}", classes=cls)
-                if not wait_done(ii, 10):
+                if not wait_done(ii, 30):
                     return fail("interrupt request gets no `done`", f"--- scenario\n{hist}", classes=cls)
                 for q in queued:
                     bad = expect_normal(q, "an eval queued behind the interrupted one")
@@ -154,7 +156,7 @@ def check(case, ctx) -> Res:
                 bad = expect_normal(e, "the eval after an idle interrupt")
                 if bad:
                     return bad
-                if not wait_done(ii, 10):
+                if not wait_done(ii, 30):
                     return fail("interrupt request gets no `done`", f"--- scenario\n{hist}", classes=cls)
             elif ph["k"] == "cross_session":
                 li, started = start_loop(sess, ph["loop"])
@@ -172,8 +174,8 @@ def check(case, ctx) -> Res:
                                 f"eval {li}: status {status_of(li)}\n--- scenario\n{hist}", classes=cls)
                 i2 = rid("int")
                 c.send({"op": "interrupt", "id": i2, "session": sess})
-                if not wait_done(li, 10) or "interrupted" not in status_of(li):
-                    return fail("interrupt does not stop the running eval within 10 s",
+                if not wait_done(li, 30) or "interrupted" not in status_of(li):
+                    return fail("interrupt does not stop the running eval within 30 s",
                                 f"eval {li}: status {status_of(li)}\n--- scenario\n{hist}", classes=cls)
             elif ph["k"] == "close_running":
                 li, started = start_loop(sess, ph["loop"])
@@ -183,10 +185,10 @@ def check(case, ctx) -> Res:
                     time.sleep(ph["wait_ms"] / 1000.0)
                 ci = rid("close")
                 c.send({"op": "close", "id": ci, "session": sess})
-                if not wait_done(ci, 10):
+                if not wait_done(ci, 30):
                     return fail("close request gets no `done`", f"--- scenario\n{hist}", classes=cls)
-                if not wait_done(li, 10):
-                    return fail("closing a session does not stop its running eval within 10 s",
+                if not wait_done(li, 30):
+                    return fail("closing a session does not stop its running eval within 30 s",
                                 f"eval {li}: {msgs_of(li)[-2:]}\n--- scenario\n{hist}", classes=cls)
                 break
         if not srv.alive() or "panicked at" in srv.stderr_text():
@@ -200,6 +202,18 @@ def check(case, ctx) -> Res:
         if c is not None:
             c.close()
         srv.stop()
+
+
+def check(case, ctx) -> Res:
+    res = run_scenario(case, ctx)
+    if res.ok or not any(w in res.signature for w in ("within 30 s", "never completes", "never starts", "no `done`")):
+        return res
+    # a deadline was missed.  Deadlines measure this machine as much as the server, so the scenario is repeated twice
+    # (injected delays make the logic races reproducible); it only counts when it misses the deadline again
+    again = [run_scenario(case, ctx) for _ in range(2)]
+    if all(not a.ok and a.signature == res.signature for a in again):
+        return res
+    return Res(ok=True, inconclusive=True, detail="deadline missed once, not on repetition: " + res.signature)
 
 
 def show(case):
